@@ -51,9 +51,9 @@ PROPS = {
         explanation=("Verified by Verus for the VM engine: Captures::get maps slot pairs to Option<Match> exactly as documented (None past the end, None for an unset start slot, no overflow for any index), "
                      "Captures::len is the number of slot pairs, Captures::iter / SubCaptureMatches::next yields get(0..len) in order, captures_from_pos truncates to exactly captures_len groups, "
                      "get(0) is Some for every successful search, Regex::captures_len returns the stored group count."),
-        residual=("captures_len == 1 + number of capturing groups is U-ANALYZE's group-count postcondition plus new_options (unverified glue); capture_names / name() go through the parser's "
+        residual=("captures_len == 1 + number of capturing groups of the parsed tree is the postcondition of Regex::new_options (U-NEW) for both engines; capture_names / name() go through the parser's "
                   "name map (outside reach; exercised by the bounded `search` family only); the delegated engine's group accounting is regex-automata's (assumed, T-RA)."),
-        assumptions=[T_VSTD, T_ARITH, T_EXTRACT, "T-run: vm::run returns at least prog.n_saves slots with a valid group-0 span (U-RUN postcondition)", "Regex::wf: n_groups >= 1 and 2*n_groups <= prog.n_saves (new_options / compile; U-COMPILE)",
+        assumptions=[T_VSTD, T_ARITH, T_EXTRACT, "T-run: vm::run returns at least prog.n_saves slots with a valid group-0 span (U-RUN postcondition)", "Regex::wf: n_groups >= 1 and 2*n_groups <= prog.n_saves -- assumed in U-CAPS, proved as the postcondition of Regex::new_options in U-NEW (same text)",
                      "T-RA: regex-automata Captures accessors (ARMSUB shims)"],
     ),
     'C13': dict(
@@ -87,9 +87,12 @@ PROPS = {
         explanation=("Verified by Verus for every expression tree / every input: the analysis (Analyzer::visit, analyze) has no arithmetic overflow (Verus checks every + - *; the group counter is bounded by the tree's group count) and terminates; "
                      "whatever the analysis does not label hard is in the syntactic class `easy` (lemma_easy) and Expr::to_str on an easy tree never reaches its panic!, terminates, and push_usize never overflows its u8 digit arithmetic; "
                      "codepoint_len (the parser's stepping function) returns the encoded width of every leading byte."),
-        residual=("Parser panic-freedom / termination / error positions for arbitrary strings, the named-backreference bound (fixed by f23eb9e) and regex-automata's builder are NOT decided by proof: parse.rs is outside Verus' dialect; "
-                  "they are exercised only by the bounded families. compile.rs arithmetic is decided in U-COMPILE."),
-        assumptions=[T_VSTD, T_ARITH, T_EXTRACT, "T-parser-shape (expr_wf) for trees reaching analyze"],
+        residual=("Of the parser, only is_digit, is_hex_digit, parse_decimal, Parser::{flag, update_flag, is_repeatable, optional_whitespace, check_for_close_paren, parse_repeat} are under contract "
+                  "(no panic, positions inside the pattern on character boundaries, error positions <= length, the skipper terminates); the recursive-descent functions and regex-automata's builder are NOT decided by proof: "
+                  "outside Verus' dialect, exercised only by the bounded family parse. The code emitter (U-COMPILE: no overflow / bounds / panic, push_literal only on literals, build never on an empty builder) and the construction glue "
+                  "(U-NEW: Regex::new_options composes parse -> wrap -> analyze -> compile / wrap, lemma_info_ok_cinfo) are decided by proof."),
+        assumptions=[T_VSTD, T_ARITH, T_EXTRACT, "T-parser-shape (expr_wf, < 2^62 groups) for trees reaching analyze", "T-position / T-startswith / T-fromstr shims in U-PARSEFN",
+                     "termination of the recursive code emitter is not proved (exec_allows_no_decreases_clause)"],
         bounded_families=['analyze', 'parse'],
     ),
     'C05': dict(
@@ -189,9 +192,9 @@ PROPS = {
         kani=True,
         level='other',
         bounded_families=['expand'],
-        explanation=("BOUNDED ONLY. Expander::exec / parse_id / parse_decimal are built on Chars::as_str, char_indices().peekable(), closures and full-Unicode char predicates: outside Verus' dialect, and intractable for Kani "
-                     "(probed: char::is_alphanumeric pulls in the Unicode tables). The property is checked by the bounded family `expand`: every template up to length 6 over the property's 14-symbol alphabet "
-                     "(exhaustive in the thorough tier; lengths <= 5 and part of 6 in the quick tier) x 3 captures setups x both expanders against an independent rendering of the documented syntax, plus the escape round trip and check's accept-only-if."),
+        explanation=("BOUNDED, except for two callees that are under Verus contracts (Captures::get, parse_decimal). Expander::exec / parse_id are built on Chars::as_str, char_indices().peekable(), closures and full-Unicode char predicates: outside Verus' dialect, and intractable for Kani "
+                     "(probed: char::is_alphanumeric pulls in the Unicode tables). The property is checked by the bounded family `expand`: every template up to length 6 over a 16-symbol alphabet (the property's, plus `-` and a non-ASCII numeric) "
+                     "(exhaustive in the thorough tier; lengths <= 5 and part of 6 in the quick tier) x 4 captures setups (one with a group whose name is a number other than its index) x both expanders against an independent rendering of the documented syntax, plus the escape round trip and check's accept-only-if."),
         residual="Templates longer than 6 or outside the alphabet; identifiers with non-ASCII alphanumerics other than e-acute.",
         assumptions=["the corpus and bounds listed in coverage.bounded"],
     ),
